@@ -57,20 +57,21 @@ def check_class(spec, mode, variant):
     kwargs, hyp_texts = spec.params(mode)
     pre = 'C04/%s[%s;%s]' % (spec.cls, mode_label(mode), variant)
     t_samples = []
+    single = '+single' in variant          # one recorded sample per list: no pair exists, every per-sample condition and 1x1 LMI does
 
     def setup(obj, samples):
         if spec.setup:
             spec.setup(obj, samples, mode)
         if hasattr(obj, 'T'):
-            for j in range(2):
+            for j in range(1 if single else 2):
                 s = Sample(S.WORLD.point('u%d' % j), S.WORLD.point('v%d' % j), S.WORLD.expr('h%d' % j))
                 obj.T.list_of_points.append(s.triplet)
                 t_samples.append(s)
 
     residue = variant.endswith('+residue')
-    variant0 = variant.replace('+residue', '')
+    variant0 = variant.replace('+residue', '').replace('+single', '')
     with_stat = variant0 in ('stat-first', 'stat-last') or spec.stationary_always
-    obj, rec, samples = run_class(spec.module, spec.cls, dict(kwargs), n_samples=3, with_stationary=with_stat,
+    obj, rec, samples = run_class(spec.module, spec.cls, dict(kwargs), n_samples=1 if single else 3, with_stationary=with_stat,
                                   stationary_pos='first' if variant0 == 'stat-first' else 'last', setup=setup, residue=residue)
     for t in rec.auto_stationary:
         samples.append(Sample(*t, role='stationary'))
@@ -94,6 +95,8 @@ def check_class(spec, mode, variant):
     for call in rec.calls:
         roles = (role_of(obj, call.l1),) + ((role_of(obj, call.l2),) if call.kind == 'two' else ())
         gens = [g for g in rec.generated if g[0] == call.name]
+        if single and not gens:
+            continue          # a pair helper over a one-element list generates nothing, and nothing is documented for it
         found = None
         t0 = time.time()
         last = None
@@ -186,6 +189,8 @@ def check_class(spec, mode, variant):
     # ---- (e): every documented condition is generated, on every required pair
     for cond in active:
         oid = '%s/spec[%s].generated' % (pre, cond.name)
+        if single and matched[cond.name] == 0 and cond.kind == 'pair' and cond.lists[0] == cond.lists[1] and len(samples) < 2:
+            continue
         if matched[cond.name] == 0:
             obs.append(Ob(oid, 'sat', 0, 'documented condition %r is generated by no call' % cond.name,
                           signature={'class': spec.cls, 'condition': cond.name, 'missing_pairs': 'all'}))
@@ -230,8 +235,8 @@ def check_class(spec, mode, variant):
 
 def variants_for(spec):
     if spec.needs_stationary:
-        return ['stat-first', 'stat-last', 'stat-auto', 'stat-last+residue']
-    return ['plain', 'plain+residue']
+        return ['stat-first', 'stat-last', 'stat-auto', 'stat-last+residue', 'stat-last+single']
+    return ['plain', 'plain+residue', 'plain+single']
 
 
 def check_all_classes(only=None):
